@@ -593,6 +593,12 @@ func (s *Server) FastInvoke(w http.ResponseWriter, i *interop.Invoke, direct boo
 			}
 		} else {
 			vhook.At("fastinvoke.success")
+			if s.GetCurrentInvokeID() != invokeID {
+				// as above: a timeout reset released the reservation while the success was on its way;
+				// left in InvokeDoneChan it would be taken for the outcome of the next invocation
+				log.Warnf("Dropping outcome of invoke %s: its reservation is gone", invokeID)
+				return
+			}
 			done := doneFromInvokeSuccess(invokeSuccess)
 			s.InvokeDoneChan <- DoneWithState{Done: done, State: s.InternalStateGetter()}
 		}
